@@ -25,11 +25,13 @@ type Conn struct {
 }
 
 func newServer(s *Swarm, netConn net.Conn) (*Conn, error) {
-	var pubKey ssh.PublicKey
+	const pubKeyExt = "sshswarm-pubkey"
 	config := &ssh.ServerConfig{
 		PublicKeyCallback: func(md ssh.ConnMetadata, pk ssh.PublicKey) (*ssh.Permissions, error) {
-			pubKey = pk
-			return &ssh.Permissions{}, nil
+			// The callback also runs for keys the client merely asks about, and its result is
+			// cached: only the Permissions returned for the key that was finally verified
+			// are attached to the connection.
+			return &ssh.Permissions{Extensions: map[string]string{pubKeyExt: string(pk.Marshal())}}, nil
 		},
 	}
 	config.AddHostKey(s.signer)
@@ -38,8 +40,12 @@ func newServer(s *Swarm, netConn net.Conn) (*Conn, error) {
 	if err != nil {
 		return nil, err
 	}
-	if pubKey == nil {
+	if sconn.Permissions == nil || sconn.Permissions.Extensions[pubKeyExt] == "" {
 		return nil, errors.New("pubkey not set after connection")
+	}
+	pubKey, err := ssh.ParsePublicKey([]byte(sconn.Permissions.Extensions[pubKeyExt]))
+	if err != nil {
+		return nil, err
 	}
 
 	raddr := sconn.RemoteAddr().(*net.TCPAddr)
